@@ -4,6 +4,8 @@
 # Confirms: patch applies; suite passes with it; demo fails with it and passes without it.
 D=$1; W=$2
 set -u
+# the deliverables may live inside the worktree: copy them out before cleaning it
+T=$(mktemp -d /tmp/verify-mutant.XXXXXX); cp -r "$D"/. "$T"/; D=$T
 cd "$W" || exit 2
 git checkout -q -- . && git clean -fdq -e target >/dev/null 2>&1
 git apply --check "$D/patch.diff" || { echo "RESULT: patch does not apply"; exit 1; }
